@@ -330,3 +330,144 @@ Example C09_dyn_classes :
     = Some (Some DNlvSet) /\
   dyn_class TSource (mkobs (Some true) (Some true) (Some true) (Some true) None None None None) = Some None.
 Proof. repeat split; vm_compute; reflexivity. Qed.
+
+(* ---- ItemsEqual's dispatch, the helper comparisons and the meaning of a comparison block: generated-table tie (b32) ---- *)
+(* What the block above left to the correspondence check alone is under the translator too.  Gen/ItemsEqT.v is
+   regenerated on every run (translator/itemseq.go) with
+     - the bodies of itemsNeedSwapping, ItemsEqual, ItemCollection.Contains, ItemCollection.Equals, IRIs.Contains and
+       NaturalLanguageValues.Equals, statement by statement, in the small imperative language of Model/ItemsEqTab.v
+       (early returns, the captured `result` / `compared` variables, closures handed to On<Type>, range loops, break;
+       calls resolved through go/types; anything else is an explicit SUnrec / BUnrec entry);
+     - for every guarded comparison block of the nine struct Equals methods, what the call in its guard and the call
+       in its comparison resolve to (cmp_callees).
+   Model/ItemsEqTab.v gives such a table its meaning (the interpreter exec / run_fn, the six functions closed over each
+   other: sem_swap ... sem_items_equal; items_equal_t = ItemsEqual from generated tables ONLY) and states the decidable
+   conditions itemseq_table_ok (each function has the body the model was written after) and cmp_callees_ok (every
+   block has an entry naming the callee whose model cmp_one applies).  Proofs/ItemsEqTabP.v, Proofs/CmpCalleeP.v:
+   for every table satisfying the conditions, for all items, the table's meaning is the hand-written model. *)
+From AP.Model Require Import ItemsEqTab ItemsEqGen.
+From AP.Proofs Require Import ItemsEqTabP CmpCalleeP.
+
+(* generic: ItemsEqual's dispatch - nil handling, swapping, IRI against anything, the collection families, the object
+   branch with its more specific Equals and the Object.Equals fallback, links - for EVERY table satisfying the
+   condition, all pairs of items, all one-level-down comparisons *)
+Theorem C09_items_equal_table_tie : forall tbl, itemseq_table_ok tbl = true ->
+  forall rec it w, sem_items_equal tbl rec (equals_method cfg_fixed rec) it w = items_equal_body cfg_fixed rec it w.
+Proof. exact items_equal_tie. Qed.
+
+(* the helpers, each for every table satisfying the condition *)
+Theorem C09_swap_table_tie : forall tbl, itemseq_table_ok tbl = true ->
+  forall a b, is_nil a = false -> is_nil b = false -> sem_swap tbl a b = Ok (needs_swap a b).
+Proof. exact swap_tie. Qed.
+
+Theorem C09_contains_table_tie : forall tbl, itemseq_table_ok tbl = true ->
+  forall rec lo r, sem_contains tbl rec lo r = contains_m rec (lst lo) r.
+Proof. exact contains_tie. Qed.
+
+Theorem C09_itemcoll_equals_table_tie : forall tbl, itemseq_table_ok tbl = true ->
+  forall rec lo w, sem_iceq tbl rec lo w = itemcoll_equals cfg_fixed rec (lst lo) w.
+Proof. exact iceq_tie. Qed.
+
+Theorem C09_iris_contains_table_tie : forall tbl, itemseq_table_ok tbl = true ->
+  forall lo r, sem_iris_contains tbl lo r = Ok (if is_nil r then false else iris_contains (lst lo) (lnk r)).
+Proof. exact iris_contains_tie. Qed.
+
+Theorem C09_nlv_equals_table_tie : forall tbl, itemseq_table_ok tbl = true ->
+  forall n w, sem_nlv_equals tbl n w = Ok (nl_equals n w).
+Proof. exact nlv_equals_tie. Qed.
+
+(* together with the Equals tables of the block above: ItemsEqual interpreted from generated tables only (dispatch,
+   helpers, the nine struct methods) is the model's items_equal at every fuel, hence ieq *)
+Theorem C09_items_equal_all_tables : forall tbl, itemseq_table_ok tbl = true ->
+  forall eqtbl others, equals_table_ok eqtbl others = true ->
+  forall n it w, items_equal_t tbl eqtbl n it w = items_equal n it w.
+Proof. exact items_equal_t_tie. Qed.
+
+(* diagnosis first: when the source moved, this is the obligation that fails, and Coq's error message names the
+   function, the position of the first top-level statement that differs, the generated and the modelled statement *)
+Theorem C09_itemseq_table_first_bad : first_bad_fn gen_itemseq_fns = None.
+Proof. vm_compute. reflexivity. Qed.
+
+(* the condition on the tables regenerated from the source on this run *)
+Theorem C09_itemseq_table : itemseq_table_ok gen_itemseq_fns = true.
+Proof. vm_compute. reflexivity. Qed.
+
+(* hence: ItemsEqual as the source says it now, every function and method read from the source, is the model *)
+Theorem C09_items_equal_gen : forall n it w, items_equal_gen n it w = items_equal n it w.
+Proof. exact (C09_items_equal_all_tables gen_itemseq_fns C09_itemseq_table gen_equals_table gen_equals_others C09_equals_table). Qed.
+
+Theorem C09_ieq_gen : forall x y, items_equal_gen (fuel_for x y) x y = ieq x y.
+Proof. intros x y. apply C09_items_equal_gen. Qed.
+
+(* ---- the meaning of one comparison block ---- *)
+(* generic: a block that classifies (cmp_of_raw), read compositionally - its guard on the property of the second
+   argument, then the model of the callee the model expects for its comparison shape and Go type (ItemsEqual = rec,
+   NaturalLanguageValues.Equals = nl_equals, ItemCollection.Equals = itemcoll_equals, IRI.Equals = iri_eqb without
+   scheme, time.Time.Equal = time_equal, != on a basic type) applied to the two properties in the order the shape
+   says - is the model's cmp_one of the classification *)
+Theorem C09_block_callee_tie : forall rec self r c ofs wfs,
+  cmp_of_raw self r = Some c ->
+  forall cal, expected_callee (rw_comp r) (rw_type r) = Some cal ->
+  raw_block_sem rec (expected_guard_callee (rw_guard r)) cal r ofs wfs = Some (cmp_one cfg_fixed rec c ofs wfs).
+Proof. exact raw_block_tie. Qed.
+
+(* for every callee table satisfying the condition: every comparison block of the Equals tables has its entry, and
+   every entry, read through the callees go/types resolved, is cmp_one of the block's classification *)
+Theorem C09_callee_table_covers : forall eqtbl cc, cmp_callees_ok eqtbl cc = true ->
+  blocks_of eqtbl = map (fun e => (cc_self e, cc_raw e)) cc.
+Proof. exact callee_table_covers. Qed.
+
+Theorem C09_callee_table_tie : forall eqtbl cc, cmp_callees_ok eqtbl cc = true ->
+  forall e, In e cc -> forall c, cmp_of_raw (cc_self e) (cc_raw e) = Some c ->
+  forall rec ofs wfs,
+  raw_block_sem rec (cc_guard_callee e) (cc_callee e) (cc_raw e) ofs wfs = Some (cmp_one cfg_fixed rec c ofs wfs).
+Proof. exact callee_table_tie. Qed.
+
+Theorem C09_callee_table_first_bad : first_bad_callee gen_cmp_callees = None.
+Proof. vm_compute. reflexivity. Qed.
+
+Theorem C09_callee_table : cmp_callees_ok gen_equals_table gen_cmp_callees = true.
+Proof. vm_compute. reflexivity. Qed.
+
+(* non-vacuity: the six functions are there; evaluating the generated tables (nothing hand-written but the primitives)
+   on lists in different order, an IRI against the object it names, a link against itself; one block of
+   Object.Equals read through its callee rejects two notes with different icons *)
+Example C09_items_equal_gen_example :
+  length gen_itemseq_fns = 6 /\ length gen_cmp_callees = length (blocks_of gen_equals_table) /\
+  items_equal_gen 20 ie_ab (IItems true (Some [IIri false (ie_id "b"); IIri true (ie_id "a")])) = Ok true /\
+  items_equal_gen 20 ie_ab ie_ac = Ok false /\
+  items_equal_gen 20 (IIri false (ie_id "x")) (ie_obj KObject "Note" "x" []) = Ok true /\
+  items_equal_gen 20 ie_link ie_link = Ok true /\
+  sem_nlv_equals gen_itemseq_fns [(B "en", B "one"); (B "fr", B "un")] [(B "fr", B "un"); (B "en", B "one")] = Ok true /\
+  sem_iris_contains gen_itemseq_fns (Some [ie_id "a"; ie_id "b"]) (ie_obj KObject "Note" "b" []) = Ok true /\
+  raw_block_sem ieq [] c_items_equal (mkraw WNeNil F_Icon KItemsEqual F_Icon F_Icon Layout.TItem)
+                (tg_note tg_icon_a) (tg_note tg_icon_b) = Some (Ok false).
+Proof. repeat split; vm_compute; reflexivity. Qed.
+
+(* what the conditions are for: tables of sources that (a) compare item lists by their lengths only, (b) lost the
+   link branch of ItemsEqual, (c) lost the type-list case of itemsNeedSwapping fail the condition, the diagnosis
+   names function and statement, and for (a), (b) the meaning of that table gives the wrong answer; (c) changes no
+   answer on these values (the swap is a normalisation: every branch behind it is symmetric in what it compares) -
+   only the obligation shows it *)
+Example C09_changed_dispatch_rejected :
+  itemseq_table_ok fns_lengths_only = false /\
+  option_map (fun p => (fst p, option_map (fun q => fst (fst q)) (snd p))) (first_bad_fn fns_lengths_only)
+    = Some (n_ic_equals, Some 5) /\
+  items_equal_t fns_lengths_only gen_equals_table 20 ie_ab ie_ac = Ok true /\
+  itemseq_table_ok fns_without_link_branch = false /\
+  option_map (fun p => (fst p, option_map (fun q => fst (fst q)) (snd p))) (first_bad_fn fns_without_link_branch)
+    = Some (n_items_equal, Some 3) /\
+  items_equal_t fns_without_link_branch gen_equals_table 20 ie_link ie_link = Ok false /\
+  itemseq_table_ok fns_swap_reduced = false /\
+  option_map (fun p => (fst p, option_map (fun q => fst (fst q)) (snd p))) (first_bad_fn fns_swap_reduced)
+    = Some (n_swap, Some 3).
+Proof. repeat split; vm_compute; reflexivity. Qed.
+
+(* a callee table in which the href comparison of Link.Equals resolves to another method fails its condition *)
+Example C09_changed_callee_rejected :
+  let cc := map (fun e => if fid_beq (rw_gfield (cc_raw e)) F_Href
+                          then mkcc (cc_self e) (cc_raw e) (cc_guard_callee e) (B "LinkHref.Equals") else e) gen_cmp_callees in
+  cmp_callees_ok gen_equals_table cc = false /\
+  option_map (fun e => (cc_self e, rw_gfield (cc_raw e), cc_callee e)) (first_bad_callee cc)
+    = Some (KLink, F_Href, B "LinkHref.Equals").
+Proof. cbv zeta. split; vm_compute; reflexivity. Qed.
